@@ -67,6 +67,8 @@ inductive Err
   | assertion | runtime | value | key | unknownClass
   deriving DecidableEq, Repr, Inhabited
 
+deriving instance DecidableEq for Except
+
 def infoOf (cfg : Cfg) (cls : String) : Option ClsInfo := cfg.infos.find? (fun r => r.cls == cls)
 def expOf (cfg : Cfg) (key : String) : Option (List TInstr) :=
   (cfg.exps.find? (fun r => r.key == key)).map (·.body)
